@@ -20,7 +20,7 @@ ASSUMPTIONS = [
     "instances are counted independently of the library: distinct non-zero labels for instance input, reference BFS components for semantic input; predictions merged by a many-to-one / merge matcher count once",
 ]
 MINIMUM = {"C02.decision_values_judged": 500, "f:C02.boundary": 50, "C02.checked": 3000, "C02.lists_judged": 2000, "f:C02.decision_rejected": 200, "C02.direct_checked": 300}
-BUDGET_S = {"quick": 600, "thorough": 900}
+BUDGET_S = {"quick": 1200, "thorough": 900}
 
 TINY = {"t1d4": ((4,), 3, 5), "t2x2": ((2, 2), 3, 5)}
 
